@@ -843,6 +843,13 @@ type fsmTxnCommitIndexTracker struct {
 	// invalidate the list on /foo (as it adds /bar in). Luckily, we can use
 	// paginated lists to see if bar is contained in foo/'s tree already.
 	indexModifiedMap map[uint64]map[string]struct{}
+
+	// validFrom is the index the FSM had applied when this tracker was
+	// created or last reset. The tracker lives in memory only: it knows
+	// nothing about writes at or before this index (they were applied before
+	// a restart or arrived with a snapshot), so a transaction which started
+	// earlier must not be fast applied.
+	validFrom uint64
 }
 
 func FsmTxnCommitIndexTracker() *fsmTxnCommitIndexTracker {
@@ -850,6 +857,16 @@ func FsmTxnCommitIndexTracker() *fsmTxnCommitIndexTracker {
 		sourceIndexMap:   make(map[uint64]int, physical.DefaultParallelTransactions),
 		indexModifiedMap: make(map[uint64]map[string]struct{}, physical.DefaultParallelTransactions),
 	}
+}
+
+// reset forgets all tracked modifications. It is called when the FSM (re)opens
+// its database, with the index applied so far.
+func (t *fsmTxnCommitIndexTracker) reset(validFrom uint64) {
+	t.l.Lock()
+	defer t.l.Unlock()
+
+	clear(t.indexModifiedMap)
+	t.validFrom = validFrom
 }
 
 // lowestActiveIndexAfterCommit returns what will be the lowest starting index
@@ -925,6 +942,12 @@ func (t *fsmTxnCommitIndexTracker) hasModifiedEntry(minIndex uint64, maxIndex ui
 	t.l.Lock()
 	defer t.l.Unlock()
 
+	if minIndex < t.validFrom {
+		// Writes in (minIndex, validFrom] are unknown to this tracker; assume
+		// the entry might have been modified so that it gets verified.
+		return t.validFrom, true
+	}
+
 	for index, modifications := range t.indexModifiedMap {
 		if index <= minIndex {
 			continue
@@ -952,6 +975,12 @@ func (t *fsmTxnCommitIndexTracker) hasModifiedListEntry(minIndex uint64, maxInde
 	normKey := key
 	if len(key) > 0 && key[len(key)-1] != '/' {
 		normKey += "/"
+	}
+
+	if minIndex < t.validFrom {
+		// Writes in (minIndex, validFrom] are unknown to this tracker; assume
+		// the entry might have been modified so that it gets verified.
+		return t.validFrom, true
 	}
 
 	for index, modifications := range t.indexModifiedMap {
